@@ -17,7 +17,7 @@ git apply MUTANT/patch.diff || { echo "patch.diff does not apply" >> $log; exit 
 echo "patch+demo rc=$rc_mut" >> $log
 git checkout -q -- . ; git clean -fdq -e MUTANT -e PROPERTY.json -e Cargo.lock -e target
 git apply MUTANT/patch.diff
-cargo test --offline -j 6 --workspace --no-fail-fast -- --test-threads 6 > $out/suite_mut.txt 2>&1; rc_suite=$?
+cargo test --offline -j 3 --workspace --no-fail-fast -- --test-threads 3 > $out/suite_mut.txt 2>&1; rc_suite=$?
 echo "patch suite rc=$rc_suite; $(grep -c '^test result: ok' $out/suite_mut.txt) ok binaries; failed: $(grep -E '^test result: FAILED' $out/suite_mut.txt | wc -l)" >> $log
 git checkout -q -- . ; git clean -fdq -e MUTANT -e PROPERTY.json -e Cargo.lock -e target
 cp MUTANT/patch.diff MUTANT/demo.diff MUTANT/meta.json $out/
